@@ -4,6 +4,8 @@ import json, sys
 cid = sys.argv[1]
 wt = sys.argv[2] if len(sys.argv) > 2 else f"/tmp/wt_{cid}"
 p = [json.loads(l) for l in open('/verif/properties.jsonl') if json.loads(l)['id'] == cid][0]
+focus = sys.argv[3] if len(sys.argv) > 3 else ""
+focus_txt = f"\nTo diversify the evaluation, aim your change at THIS part of the statement: {focus}\n" if focus else ""
 print(f"""You are helping to evaluate a verification effort for the Python package Renormalizer (tensor networks: MPS/MPO, TTNS/TTNO, DMRG, TDVP).
 You have your OWN scratch git worktree of the repository at {wt} (detached HEAD). Work ONLY inside {wt}. Never touch /repo or /verif and do not read anything under /verif.
 
@@ -15,6 +17,7 @@ Here is a semantic property that the package is supposed to satisfy:
   quantified over: {p['quantifier']['text']}
   code anchors: {', '.join(p['anchors']['files'])}
 
+{focus_txt}
 YOUR TASK: write a realistic, small source change (a plausible bug a developer could introduce: off-by-one, wrong index/axis, wrong branch condition, copy replaced by reference, stale cache key, sign, wrong side for a factor, missed special case ...) to the package under {wt}/renormalizer that BREAKS this property, while
   (1) the package still imports and the EXISTING test-suite still passes (see below), and
   (2) the breakage needs something SPECIFIC to manifest -- a particular input structure, an unusual but valid input, a multi-step sequence of operations, a particular gauge/centre position/history of the object, a particular configuration, or two cooperating sites that each look fine alone -- NOT something that ordinary use or the existing tests would expose at once.
